@@ -11,6 +11,7 @@ use std::time::Instant;
 
 use proptest::collection::vec;
 use proptest::prelude::any;
+use proptest::prop_oneof;
 use proptest::test_runner::{Config, RngSeed, TestCaseError, TestError, TestRunner};
 
 use crate::choice::{trim, Choices};
@@ -205,10 +206,26 @@ pub fn exec(f: CheckFn, choices: &[u16], case: &mut Case) -> Result<(), String> 
     opening_hours::verif_hooks::reset();
     opening_hours::verif_hooks::set_limit(Some(DEFAULT_WORK_LIMIT));
     let mut ch = Choices::new(choices);
-    match guard(|| f(&mut ch, case)) {
+    let r = match guard(|| f(&mut ch, case)) {
         Ok(r) => r,
         Err(p) => Err(format!("panic: {p}")),
+    };
+    // measured, not assumed: a generator reading past the end of its choice sequence only gets
+    // zeros (simplest alternatives), so later draws (probe dates, instants) lose their variety
+    if ch.exhausted() {
+        case.label("choice_sequence_exhausted");
     }
+    USED_HIST.with(|h| {
+        let mut h = h.borrow_mut();
+        let b = (ch.used() / 20).min(199);
+        h[b] += 1;
+    });
+    r
+}
+
+thread_local! {
+    /// Histogram (buckets of 20) of the number of choices consumed per case on this thread.
+    pub static USED_HIST: RefCell<[u64; 200]> = const { RefCell::new([0; 200]) };
 }
 
 pub fn exec_text(f: TextFn, text: &str, case: &mut Case) -> Result<(), String> {
@@ -252,7 +269,15 @@ pub fn run_sub(sub: &SubCheck, tier: Tier, seed: u64) -> SubOutcome {
                 if shard >= shards {
                     break;
                 }
+                USED_HIST.with(|h| *h.borrow_mut() = [0; 200]);
                 let (stats, failure) = run_shard(sub, per_shard, seed * 1000 + shard, &stop);
+                if std::env::var_os("VERIF_DEBUG_CHOICES").is_some() {
+                    let h = USED_HIST.with(|h| *h.borrow());
+                    let mut g = HIST_TOTAL.lock().unwrap();
+                    for i in 0..200 {
+                        g[i] += h[i];
+                    }
+                }
                 let mut m = merged.lock().unwrap();
                 m.0.merge(stats);
                 if let Some(f) = failure {
@@ -263,6 +288,22 @@ pub fn run_sub(sub: &SubCheck, tier: Tier, seed: u64) -> SubOutcome {
     });
 
     let (stats, failures) = merged.into_inner().unwrap();
+    if std::env::var_os("VERIF_DEBUG_CHOICES").is_some() {
+        let mut g = HIST_TOTAL.lock().unwrap();
+        let n: u64 = g.iter().sum();
+        let q = |p: f64| -> usize {
+            let mut acc = 0;
+            for (i, c) in g.iter().enumerate() {
+                acc += c;
+                if acc as f64 >= p * n as f64 {
+                    return (i + 1) * 20;
+                }
+            }
+            4000
+        };
+        eprintln!("CHOICES {} max_choices={} used: p50<={} p90<={} p99<={} p99.9<={}", sub.name, sub.max_choices, q(0.5), q(0.9), q(0.99), q(0.999));
+        *g = [0; 200];
+    }
     SubOutcome {
         name: sub.name,
         rule: sub.rule,
@@ -272,6 +313,8 @@ pub fn run_sub(sub: &SubCheck, tier: Tier, seed: u64) -> SubOutcome {
         exhaustive: false,
     }
 }
+
+static HIST_TOTAL: Mutex<[u64; 200]> = Mutex::new([0; 200]);
 
 fn run_shard(
     sub: &SubCheck,
@@ -287,7 +330,18 @@ fn run_shard(
         ..Config::default()
     };
     let mut runner = TestRunner::new(config);
-    let strategy = vec(any::<u16>(), 0..sub.max_choices);
+    // Most sequences have the full length (`max_choices` is set above the measured 99.9th
+    // percentile of what the generator consumes, so that late draws — probe dates, instants —
+    // are not starved: reads past the end yield zeros); a sixth keep a uniformly drawn length,
+    // which yields the small, early-truncated cases.
+    // (VERIF_CHOICE_SCALE is a measurement aid for tuning `max_choices`, not used by any
+    // registered command.)
+    let scale: usize = std::env::var("VERIF_CHOICE_SCALE").ok().and_then(|s| s.parse().ok()).unwrap_or(1);
+    let len = sub.max_choices * scale;
+    let strategy = prop_oneof![
+        5 => vec(any::<u16>(), len..=len),
+        1 => vec(any::<u16>(), 0..len),
+    ];
     let stats = RefCell::new(Stats::default());
     let failed = std::cell::Cell::new(false);
 
